@@ -556,6 +556,19 @@ class ndarray:
     def __ne__(self, o): return not_equal(self, o)
 
 
+class _Unread:
+    """a number inside a NumPy string array (would be its text); any use is outside the model"""
+    def __init__(self, v):
+        self.v = v
+
+    def __len__(self):
+        return 21                    # NumPy widens to '<U21' for integers: never equal to '<U1'
+
+    def _no(self, *a, **k):
+        raise OutsideModel("element of a mixed number/string array")
+    __str__ = __repr__ = __eq__ = __hash__ = __add__ = __radd__ = __lt__ = __gt__ = __iter__ = _no
+
+
 def isarray(x):
     return isinstance(x, ndarray)
 
@@ -698,8 +711,13 @@ def asarray(a, dtype=None):
     if k is not None:
         return ndarray([_cast(x, k) for x in leaves], shape, k)
     if kind == "U":
-        # NumPy would build a string array; klongpy only ever asks its dtype kind (and '<U1' for character results)
-        return ndarray([str(x) for x in leaves], shape, "U")
+        # NumPy would build a string array (numbers become their text); klongpy only ever asks such an array for its dtype kind
+        # (kg_asarray then falls back to object) or joins genuine character results.  Numbers are NOT converted here - str() of a
+        # symbolic integer would drag the solver into string theory for a value nobody reads; reading an element of such a
+        # mixed array is outside the model.
+        if all(isinstance(x, str) for x in leaves):
+            return ndarray(list(leaves), shape, "U")
+        return ndarray([x if isinstance(x, str) else _Unread(x) for x in leaves], shape, "U")
     if kind == "f":
         leaves = [_cast(x, "f") for x in leaves]
     elif kind == "i":
